@@ -1,7 +1,8 @@
 (* C07 — weighted model counts equal the semiring sum over models. *)
 From Coq Require Import Bool NArith List Lia Arith.
 Import ListNotations.
-From RsddV Require Import Base.Bdd Model.Wmc Proofs.BddCanon Proofs.Wmc Proofs.Smooth.
+From Coq Require Import Sorted.
+From RsddV Require Import Base.Bdd Model.Wmc Proofs.BddCanon Proofs.Wmc Proofs.Smooth Proofs.WmcDep.
 
 (* For every commutative semiring (the laws are hypotheses; the shipped weight types satisfy them by
    C13), every diagram in which no path tests a variable twice -- ordered BDDs, top-down decision
@@ -69,8 +70,17 @@ Theorem C07_evaluate_correct : forall p a, evaluate_m p a = den p a.
 Proof. exact evaluate_correct. Qed.
 Print Assumptions C07_evaluate_correct.
 
-(* The last sentence of C07 (arbitrary weights on an ordered BDD = sum over the variables each
-   sub-function depends on) is kept as an explicit statement; see Proofs/WmcDep.v for its status. *)
+(* For an ordered BDD (any order = any injective level map) and ARBITRARY weights in ANY structure
+   (no law needed): the count equals the sum taken only over the variables each sub-function
+   actually depends on -- [dep_sum] walks the variables in order and branches (and weighs) exactly
+   on those the current restricted function does not ignore. *)
+Theorem C07_wmc_dep_correct : forall (level : var -> nat) (level_inj : forall u v, level u = level v -> u = v)
+  (S : Type) (add mul : S -> S -> S) (zero one : S) (wlo whi : var -> S) vars p c x,
+  StronglySorted (fun u v => level u < level v) vars ->
+  wfb level 0 p -> incl (support p) vars ->
+  dep_sum S add mul zero one wlo whi vars (fun a => xorb c (den p a)) x (wmc_c S add mul zero one wlo whi c p).
+Proof. exact wmc_dep_correct. Qed.
+Print Assumptions C07_wmc_dep_correct.
 
 Example C07_nonvacuous :
   let p := BN true 0%N (BN false 1%N BF BT) BT in
